@@ -13,11 +13,14 @@ CLAIM = dict(
         text="Coq theorems over an executable model of dump_cookie / both parse_cookie levels: the escape table (a 256-value "
              "sweep re-proved against the table regenerated from the source's regex and map on every run), value round trip "
              "through both parsers for every token key and every Unicode scalar-value string, and no-injection of the emitted "
-             "value. The model is tied to the code by the regenerated tables/pattern pins and by differential execution "
-             "(extracted OCaml model vs werkzeug) on ~24k cases per quick run.",
+             "value; the exact attribute list in fixed order; the test client's jar (what it sends back for a dumped header "
+             "is read as the value that was set; its cookie selection is RFC 6265 path-match / domain-match). The model is tied to "
+             "the code by the regenerated tables/pattern pins, the statement-skeleton pin tools/pins/c13_cookies.txt and by "
+             "differential execution (extracted OCaml model vs werkzeug) on ~17k cases per quick run, plus end-to-end oracles "
+             "through Response.set_cookie / delete_cookie and the test client (Path, Domain, several Set-Cookie headers per response).",
         note="Trusted: Coq kernel; translator tools/c13.py; ExtrOcamlBasic extraction + driver; hand-written matcher for _cookie_re "
              "(validated differentially, header text without LF inside unquoted values); UTF-8 model; Domain/Path/Expires rendering "
-             "is an input of the attribute-assembly model; the test client's jar is covered by the harness only.",
+             "is an input of the attribute-assembly model; the jar's storage (dict keyed by domain, path, key; expiry) is exercised end to end only.",
         design="6/C13")
 PINNED_COOKIE_RE = (
     '\n    ([^=;]*)\n    (?:\\s*=\\s*\n      (\n        "(?:[^\\\\"]|\\\\.)*"\n      |\n        .*?\n      )\n    )?\n    \\s*;\\s*\n    '
